@@ -116,7 +116,49 @@ fn reference<T: DeserializeOwned>(s: &Script) -> Option<T> {
     if script::has_err(s) {
         return None;
     }
-    conjure_serde::json::client_from_slice(&script::delivered(s)).ok()
+    let body = script::delivered(s);
+    // independent of the client deserializer: exactly one JSON document (plain serde_json as
+    // the judge), and for the scalar / collection classes the JSON kinds the type admits
+    let mut it = serde_json::Deserializer::from_slice(&body).into_iter::<serde_json::Value>();
+    let tree = match (it.next(), it.next()) {
+        (Some(Ok(v)), None) => v,
+        _ => return None,
+    };
+    if kind_ok::<T>(&tree) == Some(false) {
+        return None;
+    }
+    conjure_serde::json::client_from_slice(&body).ok()
+}
+
+/// Some(verdict) for the classes with a simple independent typing rule, None otherwise
+fn kind_ok<T>(v: &serde_json::Value) -> Option<bool> {
+    use serde_json::Value as J;
+    let int32 = |x: &J| x.as_i64().map(|n| x.is_i64() && n >= i32::MIN as i64 && n <= i32::MAX as i64).unwrap_or(false) || x.as_u64().map(|n| n <= i32::MAX as u64).unwrap_or(false);
+    let name = std::any::type_name::<T>();
+    Some(match name {
+        "i32" => int32(v),
+        "alloc::string::String" => v.is_string(),
+        "f64" => v.is_number() || matches!(v.as_str(), Some("NaN") | Some("Infinity") | Some("-Infinity")),
+        "core::option::Option<alloc::string::String>" => v.is_null() || v.is_string(),
+        "alloc::vec::Vec<i32>" => v.as_array().map(|a| a.iter().all(int32)).unwrap_or(false),
+        n if n.contains("BTreeSet<alloc::string::String>") => v.as_array().map(|a| a.iter().all(|x| x.is_string())).unwrap_or(false),
+        n if n.contains("BTreeMap<alloc::string::String, i32>") => v.as_object().map(|o| o.values().all(int32)).unwrap_or(false),
+        _ => return None,
+    })
+}
+
+/// well-formed single documents of a neighbouring JSON kind (must be refused for the class)
+fn near_misses<T>() -> Vec<&'static str> {
+    match std::any::type_name::<T>() {
+        "i32" => vec!["1.5", "\"1\"", "2147483648", "-2147483649", "true", "null", "[1]", "1e2"],
+        "alloc::string::String" => vec!["1", "null", "[\"a\"]", "true"],
+        "f64" => vec!["\"1.5\"", "\"42\"", "\"1e3\"", "\"nan\"", "\"inf\"", "\"infinity\"", "\"-inf\"", "\" NaN\"", "true", "null", "[1.5]"],
+        "core::option::Option<alloc::string::String>" => vec!["1", "[\"x\"]", "false"],
+        "alloc::vec::Vec<i32>" => vec!["[\"1\"]", "[1.5]", "[null]", "{}", "1", "[[1]]", "[2147483648]"],
+        n if n.contains("BTreeSet<alloc::string::String>") => vec!["[1]", "[null]", "{}", "\"a\""],
+        n if n.contains("BTreeMap<alloc::string::String, i32>") => vec!["{\"a\":\"1\"}", "{\"a\":1.5}", "[]", "{\"a\":null}"],
+        _ => vec![],
+    }
 }
 
 fn expect_json<T: DeserializeOwned + Clone>(status: u16, ct: Ct, s: &Script, empty: Option<T>) -> Expect<T> {
@@ -332,6 +374,12 @@ where
     T: DeserializeOwned + PartialEq + Debug + Clone + Send,
 {
     sweep(class, valid, r, k, thorough, &|r, status, ct, s| run_value::<T>(r, class, status, ct, s));
+    for body in near_misses::<T>() {
+        r.states += 1;
+        for s in [script::default_script(body.as_bytes()), uniform(body.as_bytes(), 1)] {
+            run_value::<T>(r, class, 200, Ct::Json, &s);
+        }
+    }
 }
 
 fn sweep_default<T>(class: &'static str, valid: &[&str], r: &mut Report, k: usize, thorough: bool)
@@ -339,6 +387,12 @@ where
     T: DeserializeOwned + PartialEq + Debug + Clone + Default + Send,
 {
     sweep(class, valid, r, k, thorough, &|r, status, ct, s| run_default::<T>(r, class, status, ct, s));
+    for body in near_misses::<T>() {
+        r.states += 1;
+        for s in [script::default_script(body.as_bytes()), uniform(body.as_bytes(), 1)] {
+            run_default::<T>(r, class, 200, Ct::Json, &s);
+        }
+    }
 }
 
 fn sweep(_class: &'static str, valid: &[&str], r: &mut Report, k: usize, thorough: bool, run: &dyn Fn(&mut Report, u16, Ct, &Script)) {
